@@ -48,6 +48,14 @@ pub const EDGE_FENS: &[&str] = &[
     "r3k2r/8/8/8/8/8/8/R3K2R w Kq - 0 1",
     "r3k2r/8/8/8/8/8/8/R3K2R b Qk - 0 1",
     "4k3/8/8/8/7b/3n4/8/R3K2R w KQ - 0 1",
+    // a king next to an unmoved enemy corner rook whose right is still held; rook lifts on edge files
+    "4k2r/6K1/8/8/8/8/8/8 w k - 0 1",
+    "4k2r/p5K1/8/8/8/8/8/8 w k - 0 1",
+    "r3k3/1K6/8/8/8/8/8/8 w q - 0 1",
+    "8/8/8/8/8/1N6/1k6/R3K3 b Q - 0 1",
+    "8/8/8/8/8/8/6k1/4K2R b K - 0 1",
+    "4k3/8/8/8/8/R7/8/4K2R w K - 0 1",
+    "r3k3/8/7r/8/8/8/8/4K3 b q - 0 1",
     // rooks captured on their corners
     "r3k2r/8/8/8/8/8/1B4B1/R3K2R w KQkq - 0 1",
     "r3k2r/8/1N4N1/8/8/1n4n1/8/R3K2R w KQkq - 0 1",
@@ -83,6 +91,34 @@ pub const EDGE_FENS: &[&str] = &[
     "8/8/4k3/8/8/3K4/8/7R b - - 99 5990",
 ];
 
+/// Full-board positions with heavy mutual tension: long capture chains, deep quiescence.
+pub const TENSE_FENS: &[&str] = &[
+    "1k1r3r/ppq2ppp/2nbbn2/2ppp3/2PPP3/2NBBN2/PPQ2PPP/1K1R3R w - - 0 1",
+    "2kr3r/ppp1qppp/2nbbn2/3pp3/3PP3/2NBBN2/PPP1QPPP/2KR3R w - - 0 1",
+    "r3k2r/ppp1qppp/2nbbn2/3pp3/3PP3/2NBBN2/PPP1QPPP/R3K2R w KQkq - 0 1",
+    "r2q1rk1/pp1bbppp/2n1pn2/2pp4/2PP4/2N1PN2/PP1BBPPP/R2Q1RK1 w - - 0 1",
+    "r1bq1rk1/pp2bppp/2n1pn2/2pp4/2PP4/2N1PN2/PP2BPPP/R1BQ1RK1 w - - 0 9",
+    "1k1r3r/pp1q1ppp/2nbbn2/2ppp3/2PPP3/2NBBN2/PP1Q1PPP/1K1R3R b - - 0 1",
+    "2r2rk1/pp1qbppp/2nppn2/2p5/2PPP3/2N1BN2/PP2QPPP/2RR2K1 w - - 0 1",
+];
+
+/// Tense positions and their colour mirrors, validated.
+pub fn tense_seeds() -> Vec<String> {
+    let mut out = Vec::new();
+    for f in TENSE_FENS {
+        if let Ok(p) = Pos::from_fen(f) {
+            if p.is_sane() {
+                out.push(p.fen());
+                let m = p.mirror();
+                if m.is_sane() && !out.contains(&m.fen()) {
+                    out.push(m.fen());
+                }
+            }
+        }
+    }
+    out
+}
+
 /// FEN strings of the engine's own bench, read from the source file at run time (data only).
 pub fn bench_fens() -> Vec<String> {
     let mut out = Vec::new();
@@ -116,6 +152,11 @@ pub fn all_seeds() -> Result<Vec<String>, String> {
         let mf = m.fen();
         if !out.contains(&mf) {
             out.push(mf);
+        }
+    }
+    for f in tense_seeds() {
+        if !out.contains(&f) {
+            out.push(f);
         }
     }
     for f in bench_fens() {
